@@ -21,7 +21,7 @@ def run(ctx):
     ctx.cov["distinct_nontrivial"] += rec["operand_pairs"]
     if r["accepted"]:
         ctx.cov["traces_validated_against_impl"] += len(rec["types"])
-    ctx.cov["rule"] = ("every ordered pair of the TLC-enumerated domains (Z, Z[i], Z[w], Q, F2..F7, F3[x], F5[x], Q[x]) plus seeded random operands "
+    ctx.cov["rule"] = ("every ordered pair of the TLC-enumerated domains (Z, Z[i], Z[w], Q, F2..F7, F3[x], F5[x], Q[x]) plus seeded random operands (also over F_1000003 and F_(2^31-1), any i32 as argument of FF::new) "
                        "(machine types up to their width, BigInt to ~10^400/10^700, planted exact quotients and exact half-way cases) through "
                        "div/rem (all operator forms), div_round, gcd (both orders), gcdx, lcm, is_unit/inv, normalizing_unit, normalized on associates; "
                        "distinct_nontrivial = operand pairs")
